@@ -766,6 +766,8 @@ impl<S: Sample> RenderedImage<S> {
         if let Err(e) = composite_result {
             // The handle is marked `Rendering`; store a final state and wake up waiters before
             // returning, as `run_with_image` does for a failed render.
+            #[cfg(jxl_oxide_verif)]
+            verif_scope.composite_exit_err();
             drop(self.image.done_render(FrameRender::ErrTaken));
             return Err(e);
         }
